@@ -36,6 +36,8 @@ HeightOK(r) ==
   /\ r.cache = cached
   /\ (Kind = "grid" /\ ~cubic => r.v = H64(r.x, r.y) /\ r.r = 0)
   /\ (Kind = "poly" /\ cubic /\ Interior(r.x, r.y) => r.v = P512(r.x, r.y) /\ r.r <= TolPoly)
+  \* polar cell rows: the constrained least-squares cubic reproduces a cubic that is constant along the pole (Geoid.tla)
+  /\ (Kind = "ppoly" /\ cubic /\ PolarInterior(r.x, r.y) => r.v = PQ512(r.x, r.y) /\ r.r <= TolPoly)
 
 CaOK(r, a) ==
   IF ts THEN r.out = "throw" /\ r.cache
@@ -50,12 +52,74 @@ RhOK(r) ==
   \* cubic interpolation is a per-cell fit (discontinuous at cell boundaries): periodicity is stated away from them
   /\ (~cubic \/ r.edge > 1000 => r.per <= TolPer)
   /\ r.cont <= TolPer /\ r.conv <= TolConv /\ r.convdef
+  \* cubic at a pole (record field present only then): "constrained to be independent of longitude when evaluating the
+  \* height at one of the poles" - a second longitude of the same cell gives the same height (round-off of the raster span);
+  \* stated away from the cell boundaries in longitude (edgex, 1e-12 cell), where "the same cell" is decided by round-off
+  /\ ("pole" \in DOMAIN r /\ r.edgex > 1000 => r.pole <= TolPer)
 
 RcaOK(r) ==
   IF r.empty THEN r.out = "ok" /\ ~r.cache
   ELSE r.out = "ok" /\ r.cache /\ Contains(r, r.req, 1)
 
-FileOK(r) == IF r.fault \in {"none", "comment-junk"} THEN r.out = "ok" ELSE r.out = "throw"
+\* r.ctor: outcome of the constructor alone ("@exception GeographicErr if the data file cannot be found, is unreadable, or
+\* is corrupt"); r.out: outcome of constructor + one evaluation
+FileOK(r) == IF r.fault \in {"none", "comment-junk"} THEN r.out = "ok" /\ r.ctor = "ok" ELSE r.out = "throw" /\ r.ctor = "throw"
+
+(* ---------------------------------------------------------------------------------------------------------------- *)
+(* GeoidEval (man page).  One record per input line of one run of the real tool on the synthetic raster (offset     *)
+(* -108 m, scale 1/4 m): options, position (eighths), the height to convert in quarter metres, input and output     *)
+(* tokens (byte codes).  Output: the geoid height N, or with --msltohae / --haetomsl "the output echoes the input    *)
+(* line with the height converted": h = N + H, H = -N + h.  N is the documented interpolation: cubic unless -l,      *)
+(* whatever cache (-a, -c) is in use.  Heights are printed as fixed-point decimals: 4 digits for N (man page example *)
+(* 28.7068); for converted heights the example shows 3 (-10.842), so 3 or 4 are admitted (named rule DecDigits).     *)
+(* The printed number must be the exact value correctly rounded to the printed digits (either neighbour on a tie).   *)
+(* ---------------------------------------------------------------------------------------------------------------- *)
+IsDigit(c) == c >= 48 /\ c <= 57
+RECURSIVE DigitsVal(_, _, _)
+DigitsVal(t, i, j) == IF j < i THEN 0 ELSE 10 * DigitsVal(t, i, j - 1) + (t[j] - 48)
+\* fixed-point decimal [-]ddd.ddd -> [ok, nd (fraction digits), val (integer, in units of 10^-nd)]
+ParseDec(t) ==
+  LET n == Len(t)
+      neg == n > 0 /\ t[1] = 45
+      s == IF neg THEN 2 ELSE 1
+      dots == {i \in s..n : t[i] = 46}
+  IN IF Cardinality(dots) # 1 THEN [ok |-> FALSE, nd |-> 0, val |-> 0]
+     ELSE LET d == CHOOSE i \in dots : TRUE
+              wf == d > s /\ d < n /\ d - s <= 5 /\ n - d <= 4 /\ \A i \in s..n : i = d \/ IsDigit(t[i])
+          IN IF ~wf THEN [ok |-> FALSE, nd |-> 0, val |-> 0]
+             ELSE LET nd == n - d
+                      p10 == IF nd = 1 THEN 10 ELSE IF nd = 2 THEN 100 ELSE IF nd = 3 THEN 1000 ELSE 10000
+                      mag == DigitsVal(t, s, d - 1) * p10 + DigitsVal(t, d + 1, n)
+                  IN [ok |-> TRUE, nd |-> nd, val |-> IF neg THEN 0 - mag ELSE mag]
+
+\* exact interpolated raster value V over denominator 4 * Dd (bilinear 64, cubic 512), where the value law applies
+ToolHasValue(r) == IF r.cubic THEN Kind = "poly" /\ Interior(r.x, r.y) ELSE Kind \in {"grid", "poly"}
+ToolV(r) == IF r.cubic THEN P512(r.x, r.y) ELSE H64(r.x, r.y)
+ToolDd(r) == IF r.cubic THEN 128 ELSE 16
+\* N in units of 1e-4 m is  -1080000 + 2500 V / (4 Dd) = NQ + NR / Dd  with  NQ integer and 0 <= NR < 625 Dd  (no overflow)
+NQ(r) == 625 * (ToolV(r) \div ToolDd(r)) - 1080000
+NR(r) == 625 * (ToolV(r) % ToolDd(r))
+\* printed value p (units 1e-4 m, nd digits printed) is sign * N + base correctly rounded: | Dd (p - base - sign NQ) - sign NR | <= Dd u / 2,
+\* u = 10^(4 - nd); cubic heights carry round-off (TolPoly: < 1/128 of 1e-4 m), which may move a value across a rounding tie
+RoundedOK(r, p, nd, base, sign) ==
+  LET u == IF nd = 4 THEN 1 ELSE 10
+      dq == p * u - base - sign * NQ(r)                   \* within 1 + 625 of zero when correct; bounded first (32-bit integers)
+      e == ToolDd(r) * dq - sign * NR(r)
+      half == (ToolDd(r) * u) \div 2 + (IF r.cubic THEN 1 ELSE 0)
+  IN dq <= 1000 /\ 0 - dq <= 1000 /\ e <= half /\ 0 - e <= half
+DecDigits(mode) == IF mode = "n" THEN {4} ELSE {3, 4}
+ToolOK(r) ==
+  /\ r.status = 0 /\ r.has
+  /\ Len(r.tok) = (IF r.mode = "n" THEN 1 ELSE 3)
+  /\ (r.mode # "n" => r.tok[1] = r.inp[1] /\ r.tok[2] = r.inp[2])          \* echo of the input line
+  /\ LET d == ParseDec(r.tok[Len(r.tok)])   h4 == 2500 * r.hq IN
+     /\ d.ok /\ d.nd \in DecDigits(r.mode)
+     /\ (r.mode = "n" /\ ToolHasValue(r) => RoundedOK(r, d.val, d.nd, 0, 1))
+     /\ (r.mode = "m2h" /\ ToolHasValue(r) => RoundedOK(r, d.val, d.nd, h4, 1))      \* h = N + H
+     /\ (r.mode = "h2m" /\ ToolHasValue(r) => RoundedOK(r, d.val, d.nd, h4, -1))     \* H = -N + h
+     \* --msltohae piped into --haetomsl returns the height to the documented print precision (1e-3 m: two roundings of
+     \* at most half a unit of the third decimal each)
+     /\ (r.mode = "rt" => LET u == IF d.nd = 4 THEN 1 ELSE 10 IN d.val * u - h4 <= 10 /\ h4 - d.val * u <= 10)
 
 Obligation(r) ==
   CASE r.e = "Reset" -> ResetOK(r)
@@ -67,6 +131,7 @@ Obligation(r) ==
     [] r.e = "rca" -> RcaOK(r)
     [] r.e = "rnan" -> r.isnan
     [] r.e = "file" -> FileOK(r)
+    [] r.e = "tool" -> r.mode \in {"n", "m2h", "h2m", "rt"} /\ ToolOK(r)
     [] OTHER -> FALSE
 
 \* successor of the abstract state according to the SPEC (not the observation)
@@ -79,7 +144,9 @@ NextCached(r) ==
     [] OTHER -> cached
 
 Expected(r) ==
-  CASE r.e = "h" -> <<IF Kind = "grid" /\ ~cubic THEN H64(r.x, r.y) ELSE IF Kind = "poly" THEN P512(r.x, r.y) ELSE 0, cached>>
+  CASE r.e = "h" -> <<IF Kind = "grid" /\ ~cubic THEN H64(r.x, r.y) ELSE IF Kind = "poly" THEN P512(r.x, r.y)
+                      ELSE IF Kind = "ppoly" /\ PolarRow(r.y) THEN PQ512(r.x, r.y) ELSE 0, cached>>
+    [] r.e = "tool" -> <<ToolV(r), NQ(r), NR(r)>>
     [] OTHER -> <<cached, ts>>
 
 Init == l = 1 /\ KitInit /\ cubic = FALSE /\ ts = FALSE /\ cached = FALSE
